@@ -11,7 +11,7 @@ META = dict(
                 'taps at the head and tail of the inner pipeline bracket every lifetime (OnCreateMux .. OnCompletedMux). For every lifetime the tail outputs must equal the outputs of the same inner pipeline run standalone '
                 'in a fresh store on exactly the items the head tap saw during that lifetime - for all N symbolic integer items, i.e. for every interleaving of keys and every history of lifetimes on a reused slot. '
                 'A second form feeds hand-built mux event lists through the pipeline with sparse, descending and re-used key indices chosen by the solver; two "long but narrow" forms keep the schedule fixed and the values symbolic: 9 / 17 / 65 keys live at once (growth steps and cache capacities) and 18 / 40 / 260 successive lifetimes on one slot (pools, 8-bit generation counters).',
-    bounds=dict(quick='N <= 4 items (|v| <= 2^40), <= 2 groups, >= 2 lifetimes per slot for key-reusing parents; 26 stateful inner pipelines + tee_map zip/combine_latest + one nested level',
+    bounds=dict(quick='N <= 4 items (|v| <= 2^40), <= 2 groups, >= 2 lifetimes per slot for key-reusing parents; 26 stateful inner pipelines + tee_map zip/combine_latest + one nested level; long-but-narrow: 9 / 17 / 65 keys live at once created between items (tables grow while earlier keys hold state, one key live without state), 18 / 40 / 260 successive lifetimes on one slot incl. a sparse schedule (one pending item, a long run of empty lifetimes), a 17-slot overlapping roll nested under key-reusing parents',
                 thorough='N <= 6 for key-reusing parents, N <= 5 otherwise'),
     outside='inner pipelines outside the catalogue; N above the bound; partitioned stores (set_active_partition)',
     assumptions=['the inner pipeline run standalone on the lifetime items is the specification (differential oracle)'],
